@@ -18,11 +18,11 @@ T == SumInts(ps, 1)
 Sc == IF UseCeil THEN [i \in 1..Len(ps) |-> ((ps[i] * MaxScaled) + T - 1) \div T] ELSE ScaledOf(ps)
 Facts == /\ OrderPreserving(ps, Sc) /\ Bounded(Sc) /\ SumBounded(Sc)
          /\ \A i \in 1..Len(ps) : (ps[i] = T) <=> (Sc[i] = MaxScaled)     \* only a sole member reaches the maximum
-LimbsAgree == /\ Cmp(SumSeq([i \in 1..Len(ps) |-> FromInt(ps[i])], 1), FromInt(T)) = 0
+LimbsAgree == /\ SumIs([i \in 1..Len(ps) |-> FromInt(ps[i])], FromInt(T)) /\ ~SumIs([i \in 1..Len(ps) |-> FromInt(ps[i])], FromInt(T + 1))
               /\ \A i \in 1..Len(ps) : /\ IsFloorScale(FromInt(ps[i]), FromInt(T), Scale(ps[i], T))
                                        /\ Scale(ps[i], T) > 0 => ~IsFloorScale(FromInt(ps[i]), FromInt(T), Scale(ps[i], T) - 1)
                                        /\ ~IsFloorScale(FromInt(ps[i]), FromInt(T), Scale(ps[i], T) + 1)
-                                       /\ Cmp(MulSmall(FromInt(ps[i]), 65536), FromInt(ps[i] * 65536)) = 0
+                                       /\ Diff(FromInt(ps[i]), 65536, FromInt(ps[i] * 8), 8192) = 0
               /\ \A i, j \in 1..Len(ps) : Leq(FromInt(ps[i]), FromInt(ps[j])) <=> ps[i] <= ps[j]
 FactsInv == ps # <<>> => Facts
 Inv == ps # <<>> => (Facts /\ LimbsAgree)
